@@ -614,6 +614,10 @@ where
                 Self::reset_session(session);
             }
 
+            // Exchanges that are resumed still occupy the server's Receive Maximum.
+            let resumed = u16::try_from(session.retrasmit_queue.len()).unwrap_or(u16::MAX);
+            connection.send_quota = connection.remote_receive_maximum.saturating_sub(resumed);
+
             Self::retransmit(tx, connection, session).await?;
         }
 
